@@ -69,6 +69,10 @@ let gen_bytes (spec : string) (printable : bool) : int list option =
     Some (List.init (String.length h / 2) (fun i -> int_of_string ("0x" ^ String.sub h (2 * i) 2)))
   end else None
 
+(* n<len>: a NULL pointer with a claimed size of len > 0: the library rejects the call (no state change) *)
+let null_sized (sp : string) : bool =
+  String.length sp > 1 && sp.[0] = 'n' && (match int_of_string_opt (String.sub sp 1 (String.length sp - 1)) with Some k -> k > 0 | None -> false)
+
 let strv_of spec = match gen_bytes spec true with None -> SNull | Some l -> SBytes (List.map (fun b -> byte_tab.(b)) l)
 
 let ints_of_bytes (l : n list) : int list = List.map int_of_n l
@@ -126,6 +130,7 @@ let () = register "prog" (fun ic ->
            let st = Int64.to_int (toki t 6) in
            let is_str = (st = 2 || st = 3) in
            let data = (match gen_bytes (tok t 7) is_str with None -> [] | Some l -> if is_str then l @ [0] else l) in
+           if null_sized (tok t 7) then emit (name ^ " E") else
            wr name (WAnno (tokn t 1, { an_ts = tokz t 2; an_y = n_of_hex (tok t 3); an_type = tokn t 4; an_group = tokn t 5;
                                             an_stype = tokn t 6; an_data = List.map (fun b -> byte_tab.(b)) data }))
          | "utc" -> wr name (WUtc (tokn t 1, tokz t 2, tokz t 3))
@@ -133,6 +138,7 @@ let () = register "prog" (fun ic ->
            let st = Int64.to_int (toki t 2) in
            let is_str = (st = 2 || st = 3) in
            let data = (match gen_bytes (tok t 3) is_str with None -> [] | Some l -> if is_str then l @ [0] else l) in
+           if null_sized (tok t 3) then emit (name ^ " E") else
            wr name (WUd { ud_meta = tokn t 1; ud_stype = tokn t 2; ud_data = List.map (fun b -> byte_tab.(b)) data })
          | "wflush" -> wr name WFlush
          | "wclose" -> emit "wclose 0"
